@@ -1584,6 +1584,13 @@ func main() {
 		Dir:        repoRoot,
 		BuildFlags: flags,
 	}
+	// go list sees the overlay through BuildFlags; the parser needs the replaced file contents too
+	cfg.Overlay = map[string][]byte{}
+	for logical, actual := range overlayMap {
+		if b, err := os.ReadFile(actual); err == nil {
+			cfg.Overlay[logical] = b
+		}
+	}
 	loaded, err := packages.Load(cfg, patterns...)
 	if err != nil {
 		fmt.Fprintln(os.Stderr, "load:", err)
